@@ -58,7 +58,11 @@ Count(ts, T) == Len(SelectSeq(ts, LAMBDA t : t \in T))
 \* A block-form @insert("n") opens a block too, but the parser lets any closer of an enclosing construct end it, so
 \* counting is not sound for it; an input that ENDS with the header of a block-form insert is certainly unterminated.
 EndsWithBlockInsert(ts) == LET n == Len(ts) IN n >= 4 /\ ts[n - 3] = "INSERT" /\ ts[n - 2] = "LPAREN" /\ ts[n - 1] = "STR" /\ ts[n] = "RPAREN"
-Unclosed(ts) == Count(ts, {"IF", "EACH", "FOR"}) > Count(ts, {"END"}) \/ EndsWithBlockInsert(ts)
+NoEndAfterP(ts, k) == \A j \in (k + 1)..Len(ts) : ts[j] \notin {"END", "ELSE", "ELSE_IF"}
+HdrP(ts, k, h) == k + Len(h) - 1 <= Len(ts) /\ \A j \in 1..Len(h) : ts[k + j - 1] = h[j]
+NeverClosedP(ts) == \E k \in 1..Len(ts) : \/ (HdrP(ts, k, <<"INSERT", "LPAREN", "STR", "RPAREN">>) /\ NoEndAfterP(ts, k + 3))
+                                          \/ (HdrP(ts, k, <<"COMPONENT", "LPAREN", "STR", "RPAREN", "SLOT">>) /\ NoEndAfterP(ts, k + 4))
+Unclosed(ts) == Count(ts, {"IF", "EACH", "FOR"}) > Count(ts, {"END"}) \/ EndsWithBlockInsert(ts) \/ NeverClosedP(ts)
 Base == IF LexSet = "small" THEN Small ELSE Closed \cup IllegalLx \cup SlotLx
 \* every @slot of the input belongs to a component use: the input is made of SlotLx lexemes and lexemes without @slot
 Owned(q) == \A k \in 1..Len(q) : q[k] \in SlotLx \/ Count(q[k].ts, {"SLOT"}) = 0
